@@ -52,7 +52,8 @@ int main(int argc, char** argv) {
         const bool shuffle = argc > 7 && std::string(argv[7]) == "shuffle";
         for (int g = 0; g < n; g++) {
             Position pos = TextIO::readFEN(TextIO::startPosFEN);
-            const bool pawnRush = rnd.nextInt(4) == 0;      // games in which pawns run (promotions, en passant, long pawn paths)
+            const bool pawnRush = rnd.nextInt(4) == 0;
+            const bool kingWalk = !pawnRush && rnd.nextInt(4) == 0;    // kings leave home early and wander among the pawns (deadlock / blocked-square rules)      // games in which pawns run (promotions, en passant, long pawn paths)
             int plies = 1 + rnd.nextInt(shuffle ? 30 : 150);
             int shState = 0; Move backA, backB, firstOfShuffle;      // shuffle state machine
             if (rnd.nextInt(3) == 0) plies = 1 + rnd.nextInt(24);
@@ -72,6 +73,8 @@ int main(int argc, char** argv) {
                 }
                 if (m.isEmpty()) break;
                 bool forced = false;
+                if (kingWalk && p >= 2 && rnd.nextInt(5) < 2)
+                    for (int t = 0; t < 12; t++) { const Move& c = ml[rnd.nextInt(ml.size)]; int pc = pos.getPiece(c.from()); if ((pc == Piece::WKING || pc == Piece::BKING) && pos.getPiece(c.to()) == Piece::EMPTY) { m = c; forced = true; break; } }
                 if (shuffle) {
                     auto quiet = [&](const Move& x) { int pc = pos.getPiece(x.from()); return (pc == Piece::WKNIGHT || pc == Piece::BKNIGHT || pc == Piece::WBISHOP || pc == Piece::BBISHOP ||
                                                                                                 pc == Piece::WQUEEN || pc == Piece::BQUEEN) && pos.getPiece(x.to()) == Piece::EMPTY; };
@@ -199,13 +202,17 @@ int main(int argc, char** argv) {
                     special.push_back((int)i);
             }
             const int nSpecial = std::min<int>((int)special.size(), 6) * 2;
-            for (int k = 0; k < per + nSpecial; k++) {
+            const int nNear = per / 2;      // goals a few plies ahead: usually no capture in between, so the no-capture-left rules (deadlocks) apply
+            for (int k = 0; k < per + nSpecial + nNear; k++) {
                 // the goal is the final position of the game or of one of its prefixes (itself a legal game from the initial position)
                 int j = (k < 2 || rnd.nextInt(2) == 0) ? (int)g.size() : 1 + rnd.nextInt((int)g.size());
                 int i = rnd.nextInt(j + 1);
                 if (k == 0) i = 0;
                 if (k == 1) i = j;
-                if (k >= per) {              // start right before a special move; goal: shortly after it, or the end of the game
+                if (k >= per + nSpecial) {
+                    i = rnd.nextInt((int)g.size());
+                    j = std::min<int>((int)g.size(), i + 1 + rnd.nextInt(4));
+                } else if (k >= per) {              // start right before a special move; goal: shortly after it, or the end of the game
                     i = special[rnd.nextInt((int)special.size())];
                     j = ((k - per) & 1) ? (int)g.size() : std::min<int>((int)g.size(), i + 1 + rnd.nextInt(6));
                 }
